@@ -135,6 +135,19 @@ impl State {
                 self.slots.insert(t[1].into(), (self.kind.clone() + ":" + &self.elem, self.data.clone()));
                 "OK".into()
             }
+            "SWAP" => {
+                let key = self.kind.clone() + ":" + &self.elem;
+                let tree = matches!(self.family(), "q" | "hq" | "w" | "hw");
+                match self.slots.get_mut(t[1]) {
+                    Some((k, d)) if *k == key && tree => {
+                        std::mem::swap(d, &mut self.data);
+                        "T".into()
+                    }
+                    Some(_) => "F".into(),
+                    None => "X".into(),
+                }
+            }
+            "DROP" => "OK".into(),
             "EQ" => match self.slots.get(t[1]) {
                 Some((k, d)) => {
                     if *k != self.kind.clone() + ":" + &self.elem {
@@ -420,8 +433,9 @@ impl State {
                 'n' => if i < e { i += 1; format!("S{}", seq[i - 1]) } else { "N".into() },
                 'b' if de => if i < e { e -= 1; format!("S{}", seq[e]) } else { "N".into() },
                 'l' if ex => format!("V{}", e - i),
-                // size_hint: the remaining count must lie within it ("HE": an ExactSizeIterator, both bounds equal it)
-                'h' => format!("{}{}", if ex { "HE" } else { "H" }, e - i),
+                // size_hint: the remaining count must lie within the reported bounds (the std contract of a correct
+                // hint; the default (0, None) always is)
+                'h' => format!("H{}", e - i),
                 'k' | 'j' | 'K' => {
                     let k = match ch { 'k' => 1usize, 'j' => 7, _ => usize::MAX };
                     if k < e - i { i += k + 1; format!("S{}", seq[i - 1]) } else { i = e; "N".into() }
